@@ -220,8 +220,33 @@ func quadRuns(out func(*runRec), trace bool, seed int64, procs []int) {
 					return 1 + x*(2+x*(0.5-x))
 				}
 				base := runtime.NumGoroutine()
-				v := quad.Fixed(f, -1, 2, n, nil, conc)
-				leaked := settle(base)
+				// quad.Fixed must return (C09 / C18: the fork/join design always terminates). A call that
+				// normally takes microseconds and has not returned after 30 s, twice in a row, is
+				// logged as a run that never joined: OK = 0 and its goroutines leaked, which the trace
+				// specification rejects. (Run directly, a hung call would end the recorder with the Go
+				// runtime's deadlock report and leave the check undecided.)
+				v := math.NaN()
+				hung := core.CallTimeout(30*time.Second, func() { v = quad.Fixed(f, -1, 2, n, nil, conc) }).Hung
+				if hung {
+					hung = core.CallTimeout(30*time.Second, func() { v = quad.Fixed(f, -1, 2, n, nil, conc) }).Hung
+					if !hung {
+						// the first call was only stalled (overloaded machine) and may still be running:
+						// nothing about this run is recorded
+						verifhook.SetTracer(nil)
+						runtime.GOMAXPROCS(old)
+						continue
+					}
+				}
+				leaked := 0
+				if hung {
+					v = math.NaN()
+					leaked = runtime.NumGoroutine() - base
+					if leaked < 1 {
+						leaked = 1
+					}
+				} else {
+					leaked = settle(base)
+				}
 				verifhook.SetTracer(nil)
 				runtime.GOMAXPROCS(old)
 				if conc == 0 {
@@ -252,6 +277,9 @@ func quadRuns(out func(*runRec), trace bool, seed int64, procs []int) {
 					rr.Ev = append(rr.Ev, o)
 				}
 				out(rr)
+				if hung {
+					return // one run that never joins decides; every further one would cost a minute
+				}
 			}
 		}
 	}
